@@ -141,6 +141,8 @@ func (r *NRun) step(st NStep) {
 		}
 	case "round":
 		r.CommitRound()
+	case "sync": // UpdateState with a block st.A heights above the node's current one (0: the current height's block; >0: heights are skipped)
+		r.SyncAhead(uint64(st.A))
 	case "cand":
 		r.nextH = st.Next
 		sp := r.candidate(st)
@@ -1002,6 +1004,29 @@ func (r *NRun) SyncPast() {
 	n := r.Me
 	h := r.h()
 	b := r.freshBlock("sync")
+	nm := w.Mon.per[n.Idx]
+	n.Inbox = append(n.Inbox, InEvent{Kind: "sync", Block: b})
+	pre := w.Mon.pre(n)
+	w.guard(n, func() {
+		n.VN.Gc()
+		if n.VN.MainUpdateState(b, nil) {
+			nm.blockFor[h+1] = b
+			nm.proofFor[h+1] = nil
+			n.VN.WorkerUpdateState(b, nil)
+		}
+	})
+	w.Mon.onSync(n, &Commit{H: h, Block: b}, pre)
+}
+
+// SyncAhead: UpdateState with a block of height (current + ahead): the node jumps to (current + ahead + 1), skipping "ahead" heights.
+func (r *NRun) SyncAhead(ahead uint64) {
+	w := r.W
+	n := r.Me
+	h := r.h() + ahead
+	if h+1 > w.Cfg.MaxHeight {
+		h = r.h()
+	}
+	b := &fakes.Block{H: primitives.BlockHeight(h), Ref: primitives.TimestampSeconds(1000 + uint32(h)), ID: fmt.Sprintf("blk/%d/far", h), Prev: "unknown", Valid: true}
 	nm := w.Mon.per[n.Idx]
 	n.Inbox = append(n.Inbox, InEvent{Kind: "sync", Block: b})
 	pre := w.Mon.pre(n)
